@@ -109,7 +109,7 @@ def main():
                 if os.path.exists(srcf) and os.path.abspath(srcf) != os.path.abspath(os.path.join(out, name)):
                     shutil.copy(srcf, os.path.join(out, name))
             meta["needs"] = old.get("needs", "see notes.md (written by the sub-agent)")
-            for key in ("source", "breaks", "other_property"):
+            for key in ("source", "breaks", "other_property", "rebased"):
                 if key in old:
                     meta[key] = old[key]
             json.dump(meta, open(os.path.join(out, "meta.json"), "w"), indent=1)
